@@ -487,7 +487,8 @@ def r5(ctx):
     repo = ctx.repo
     f = ctx.fn(repo.func(MSG + ".Request.read_line"))
     g = f.cfg
-    LIM = f.params[3]
+    # the limit is a parameter the callers fill with the configured value, or the configured attribute read on the spot
+    LIM = next((p_ for p_ in f.params[1:] if "limit" in p_), None) or "self.limit_request_line"
     reads = [n for c in walk_own(f.node) if is_read_call(repo, f, c) for n in nodes_with(f, c)]
     ctx.need(reads, "C06.R5: read_line never refills")
     head = g.entry
